@@ -570,7 +570,10 @@ static RETCODE adfFileSeekEOF_ ( struct AdfFile * const file )
 static RETCODE adfFileSeekOFS_ ( struct AdfFile * const file,
                                  uint32_t               pos )
 {
-    adfFileSeekStart_ ( file );
+    /* without the first block there is nothing to walk along */
+    RETCODE rc = adfFileSeekStart_ ( file );
+    if ( rc != RC_OK )
+        return rc;
 
     unsigned blockSize = file->volume->datablockSize;
 
